@@ -33,6 +33,7 @@ from dask.dataframe.io.parquet.core import (
 )
 from dask.dataframe.io.parquet.utils import _split_user_options
 from dask.dataframe.io.utils import _is_local_fs
+from dask.dataframe.utils import clear_known_categories
 from dask.delayed import delayed
 from dask.utils import apply, funcname, natural_sort_key, parse_bytes, typename
 from fsspec.utils import stringify_path
@@ -933,6 +934,11 @@ class ReadParquetPyarrowFS(ReadParquet):
         dataset_info["dataset"] = dataset
         dataset_info["schema"] = dataset.schema
         meta = dataset.schema.empty_table().to_pandas()
+        # The dictionaries of an empty table are empty: the categories are not
+        # known before the files are read (same as the fsspec reader)
+        meta = clear_known_categories(
+            meta, dtype_backend=self.kwargs.get("dtype_backend")
+        )
         # name of the index column in the files; dask writes an unnamed index as
         # NONE_LABEL and gives the name ``None`` back to the user
         dataset_info["index_name"] = meta.index.name
